@@ -17,12 +17,30 @@ var Steps uint64
 // schedActive is true while a Scheduler run is in progress.
 var schedActive bool
 
+// Fuel, when positive, is the number of step points the current call may still
+// execute; reaching zero panics with ErrFuel (a deterministic guard against
+// generated programs that run exponentially long). Ignored under the scheduler,
+// where per-task step budgets do the same job.
+var Fuel int64
+
+// ErrFuel is the panic value of an exhausted Fuel.
+var ErrFuel = errFuel{}
+
+type errFuel struct{}
+
+func (errFuel) Error() string { return "simrt: step fuel exhausted" }
+
 // Step is inserted before every statement of repository code.
 func Step(site uint32) {
 	Hits[site]++
 	Steps++
 	if schedActive {
 		schedStep(site)
+	} else if Fuel > 0 {
+		Fuel--
+		if Fuel == 0 {
+			panic(ErrFuel)
+		}
 	}
 }
 
